@@ -245,6 +245,8 @@ func (c *Ctx) closureKinds(fn *ssa.Function, i ssa.Instruction) KindSet {
 }
 
 // closureArgKinds: kinds of an argument inside a closure: the closure's own tests, intersected with what holds where the closure is created.
+var closureDepth int
+
 func (c *Ctx) closureArgKinds(fn *ssa.Function, arg ssa.Value, at ssa.Instruction) KindSet {
 	ks, _ := c.kindsAt(fn, arg, at)
 	// a captured variable of the parent: use the parent's knowledge at the closure's creation
@@ -257,6 +259,42 @@ func (c *Ctx) closureArgKinds(fn *ssa.Function, arg ssa.Value, at ssa.Instructio
 						subj, kills := cellSubject(cell, nil)
 						kf := c.kindFlowWithTypeTests(par, subj, kills)
 						ks &= kf.At(mc)
+						// the cell holds a parameter of the parent (an iterator constructor): its call sites decide the kind
+						if par.Parent() == nil && c.P.OnlyStaticCallers(par) && closureDepth < 4 {
+							stores := cellStores(cell)
+							var q *ssa.Parameter
+							if len(stores) == 1 {
+								q, _ = stores[0].(*ssa.Parameter)
+							}
+							if q != nil && q.Parent() == par {
+								idx := -1
+								for k, pp := range par.Params {
+									if pp == q {
+										idx = k
+									}
+								}
+								sites := c.P.CallIndex().Sites[par]
+								if idx >= 0 && len(sites) > 0 {
+									var u KindSet
+									closureDepth++
+									for _, site := range sites {
+										if idx >= len(site.Common().Args) {
+											u = AllKinds
+											continue
+										}
+										a := site.Common().Args[idx]
+										if site.Parent().Parent() != nil {
+											u |= c.closureArgKinds(site.Parent(), a, site)
+										} else {
+											k2, _ := c.kindsAt(site.Parent(), a, site)
+											u |= k2
+										}
+									}
+									closureDepth--
+									ks &= u
+								}
+							}
+						}
 					}
 				})
 			}
